@@ -1063,10 +1063,12 @@ impl Scenario for Pipe {
             ));
         }
         // (b) read back == constructed
-        if plan.pipe.indent.is_none() {
+        {
+            // with indentation the writer adds blank text between markup (never next to other
+            // text): the comparison then leaves blank-only text runs out on both sides
             let exp = expected(builds);
             let got = read_events.borrow();
-            check_readback(&exp, &got, &ref_bytes, &mut out);
+            check_readback(&exp, &got, &ref_bytes, plan.pipe.indent.is_some(), &mut out);
         }
         let nontrivial = ps.starved > 0 && (ps.short_writes > 0 || ps.backpressure > 0);
         st.note_distinct(plan.hash64(), nontrivial);
@@ -1152,7 +1154,8 @@ fn show_canon(v: &[Canon]) -> String {
     v.iter().map(|c| format!("{}({:?})", c.kind, String::from_utf8_lossy(&c.bytes))).collect::<Vec<_>>().join(" ")
 }
 
-fn check_readback(exp: &[Expect], got: &[Result<Event<'static>, String>], bytes: &[u8], out: &mut Vec<Violation>) {
+fn check_readback(exp: &[Expect], got: &[Result<Event<'static>, String>], bytes: &[u8], indented: bool, out: &mut Vec<Violation>) {
+    let blank = |b: &[u8]| b.iter().all(|c| matches!(c, b' ' | b'\t' | b'\r' | b'\n'));
     if let Some(Err(e)) = got.iter().find(|g| g.is_err()) {
         out.push(Violation::new(
             "C09",
@@ -1162,8 +1165,20 @@ fn check_readback(exp: &[Expect], got: &[Result<Event<'static>, String>], bytes:
         return;
     }
     let got_events: Vec<&Event<'static>> = got.iter().map(|g| g.as_ref().unwrap()).collect();
-    let want = canonicalise(exp.iter().map(|x| canon_of(&x.ev)).collect());
-    let have = canonicalise(got_events.iter().map(|e| canon_of(e)).collect());
+    let mut want = canonicalise(exp.iter().map(|x| canon_of(&x.ev)).collect());
+    let mut have = canonicalise(got_events.iter().map(|e| canon_of(e)).collect());
+    if indented {
+        // indentation (automatic between markup, or asked for with write_indent before, after
+        // or between texts) only ever ADDS blanks to character data: text runs are compared
+        // with their blanks taken out, blank-only runs not at all. (Which blanks exactly is
+        // C19's subject, a pure function of the event sequence.)
+        for v in [&mut want, &mut have] {
+            for c in v.iter_mut().filter(|c| c.kind == "Text") {
+                c.bytes.retain(|b| !blank(&[*b]));
+            }
+            v.retain(|c| !(c.kind == "Text" && c.bytes.is_empty()));
+        }
+    }
     if want != have {
         let i = (0..want.len().min(have.len())).find(|&i| want[i] != have[i]).unwrap_or(want.len().min(have.len()));
         out.push(Violation::new(
@@ -1193,7 +1208,9 @@ fn check_readback(exp: &[Expect], got: &[Result<Event<'static>, String>], bytes:
     if let Some(r) = run.take() {
         want_texts.push(r);
     }
-    let want_texts: Vec<String> = want_texts.into_iter().filter(|t| !t.is_empty()).collect();
+    let ws: &[char] = &[' ', '\t', '\r', '\n'];
+    let edge = |t: String| -> String { if indented { t.chars().filter(|c| !ws.contains(c)).collect() } else { t } };
+    let want_texts: Vec<String> = want_texts.into_iter().map(edge).filter(|t| !t.is_empty()).collect();
     let mut have_texts: Vec<String> = vec![];
     for e in &got_events {
         if let Event::Text(t) = e {
@@ -1205,6 +1222,9 @@ fn check_readback(exp: &[Expect], got: &[Result<Event<'static>, String>], bytes:
                 }
             }
         }
+    }
+    if indented {
+        have_texts = have_texts.into_iter().map(edge).filter(|t| !t.is_empty()).collect();
     }
     if want_texts != have_texts {
         out.push(Violation::new("C09", "payload-differs", format!("texts written {:?}, texts read back {:?}", want_texts, have_texts)));
